@@ -1,14 +1,24 @@
 #!/bin/bash
-# usage: tools/mut.sh <patch> <Cxx> [more Cxx...]   -- apply patch to /repo, run quick checks, revert
-patch=$1; shift
-cd /repo || exit 2
-if ! git diff --quiet; then echo "/repo dirty"; exit 2; fi
-git apply "$patch" || { echo "patch does not apply"; exit 2; }
+# usage: tools/mut.sh <patch> <Cxx> [more Cxx...]
+# Runs the quick checks against a seeded change.  The change is applied to a scratch worktree of /repo's HEAD
+# (VERIF_REPO points the checks there, VERIF_OUT keeps their evidence/replays out of /verif), so /repo itself is
+# never touched and long sweeps against /repo can keep running.  MUT_INPLACE=1 applies to /repo instead.
+patch=$(realpath "$1"); shift
+wt=/tmp/wt/mut.$$; out=/tmp/mutout.$$
+if [ -n "$MUT_INPLACE" ]; then
+  cd /repo || exit 2
+  if ! git diff --quiet; then echo "/repo dirty"; exit 2; fi
+  git apply "$patch" || { echo "patch does not apply"; exit 2; }
+  wt=/repo
+else
+  git -C /repo worktree add -q --detach "$wt" HEAD || exit 2
+  git -C "$wt" apply "$patch" || { echo "patch does not apply"; git -C /repo worktree remove --force "$wt"; exit 2; }
+fi
 cd /verif
 for p in "$@"; do
-  out=$(VERIF_SEED=${VERIF_SEED:-1} ./run.py $p --tier ${TIER:-quick} 2>&1); rc=$?
-  echo "== $p rc=$rc"; echo "$out" | grep -E "VIOLATION|KNOWN|HARNESS|seed=" | head -8
-  echo "$out" | grep -E "^  C[0-9]+/" | head -5
+  out_txt=$(VERIF_REPO=$wt VERIF_OUT=$out VERIF_SEED=${VERIF_SEED:-1} ./run.py $p --tier ${TIER:-quick} 2>&1); rc=$?
+  echo "== $p rc=$rc"; echo "$out_txt" | grep -E "VIOLATION|KNOWN|HARNESS|seed=" | head -8
+  echo "$out_txt" | grep -E "^  C[0-9]+/" | head -5
 done
-rm -rf /verif/replays/*/found_*.json
-git -C /repo checkout -- .
+rm -rf "$out"
+if [ -n "$MUT_INPLACE" ]; then git -C /repo checkout -- .; else git -C /repo worktree remove --force "$wt"; fi
